@@ -555,13 +555,14 @@ def correspondence(rep, rx, plats, rng, thorough, info_all):
 
     # (c') several driver objects alive at once: the class-wide cache must not hand one object another one's answer
     c05_objs.objects_suite(sys.modules[__name__], rep, rx, plats, rng, thorough, info_all, coq_bytes, coq_list, common, wd)
+    c05_objs.session_name_suite(sys.modules[__name__], rep, rx, plats, rng, thorough, info_all)
 
     # (d) histories with IN-PLACE edits of existing level objects + update_privilege_levels (all platforms), and
     # (e) prompt detection after commandeer (oracle only).  Last: they edit level objects of their own drivers.
     me = sys.modules[__name__]
     if c05_hist.edit_histories(me, rep, rx, plats, rng, thorough, info_all, coq_bytes, coq_list, common, _coqc):
         c05_hist.commandeer_suite(me, rep, rx, plats, rng, thorough, info_all)
-    rep.coverage["correspondence"] = {"suites": ["regex-conformance", "prompt-classify", "get_prompt-detect", "prompt-cache", "prompt-cache-objects",
+    rep.coverage["correspondence"] = {"suites": ["regex-conformance", "prompt-classify", "get_prompt-detect", "prompt-cache", "prompt-cache-objects", "session-name-is-a-level",
                                                  "prompt-cache-in-place-edits", "get_prompt-after-commandeer"]}
     rep.sample({"platform": "cisco_nxos", "example": "switch(maint-mode)(config-subif)# -> ['configuration']"})
 
@@ -612,6 +613,8 @@ def replay(path):
         conv = {"R": ["T", [["register", "s1"]]], "S": ["T", [["retire", "s1"], ["register", "s2"]]]}
         ops = [["Q", o[1]] if o[0] == "Q" else conv[o[0]] for o in r["ops"]]
         return c05_hist.replay_history(sys.modules[__name__], {"platform": r["platform"], "stack": r.get("stack", "sync"), "ops": ops})
+    if kind == "session-name":
+        return c05_objs.replay_session_name(sys.modules[__name__], r)
     if kind == "cache-objects":
         return c05_objs.replay(sys.modules[__name__], r)
     if kind == "edit-isolation":
@@ -636,6 +639,8 @@ MANIFEST = {
             "the decorated function is the plain method, and its body touches nothing but self.privilege_levels, self.logger and its argument — any hand-made memo makes the translator "
             "refuse); refuted for a key without the object (C05_cache_shared_key_refuted). Confronted with 2-3 real driver objects of one platform (model-compared, NX-OS / EOS session "
             "tables) and of different platforms (oracle-only: python re over each object's own table). "
+            "Session names that are names of existing levels (a core level, a session registered before; oracle-only): whatever register_configuration_session does — the tree refuses — "
+            "every prompt of the base grammars still maps to its own level(s). "
             "The same theorem covers IN-PLACE edits of existing level objects (Update t with the edited table): histories on the real drivers of all five platforms classify "
             "prompts, then edit .pattern / .not_contains of the existing PrivilegeLevel objects (host class widened, length bound narrowed, not_contains entry added / removed; "
             "controls: object replaced, level added, undo), call update_privilege_levels(), and classify / get_prompt the prompts that tell the old table from the new one; "
